@@ -1305,3 +1305,6 @@ V('c01-write-short-appends-nothing', 'C01', 'C01.PRIMS', '_protocol/outgoing.py'
 V('c01-question-not-appended', 'C01', 'C01.PRIMS', '_protocol/outgoing.py',
   '        self.questions.append(record)\n',
   '        pass\n', names=['add_question'])
+V('c06-refresh-never-shortens', 'C06', 'C06.FLOORFLUSH', DNS,
+  "        self.set_created_ttl(other.created, other.ttl)",
+  "        if other.get_expiration_time(100) >= self.get_expiration_time(100):\n            self.set_created_ttl(other.created, other.ttl)", names=['reset_ttl'])
